@@ -210,7 +210,7 @@ CHECKS = {
    technique="Coq proof (loop invariant for greedy star matching + fuel potential; induction over path segments) + exhaustive small-scope and generated-tree differential",
    ref="DESIGN.md 7 C20"),
  "C04": dict(
-   text="Theorems C04_windows_any_engine / C04_find_matches / C04_replace (Coq, closed): for ANY attempt function, text and window sizes, "
+   text="Theorems C04_windows_any_engine / C04_find_matches / C04_replace / C04_windows_compose (Coq, closed): for ANY attempt function, text and window sizes, "
         "top/take n, skip s, skip s take t and last n (n>=1) of the model's findMatches are firstn/skipn slices of the `find all` sequence, "
         "matches unchanged incl. MatchNumber. Tie: bytecode + per-attempt + end-to-end correspondence of the model with the Go code, and the "
         "property itself checked on the implementation (window = slice of the implementation's own `all` result) for overlapping bodies x all "
